@@ -21,15 +21,88 @@ def err_variant(n):
     return None
 
 
+class Guard:
+    """the innermost `if` that decides whether an error value is produced, with the branch the error sits in;
+    cond_true(pred) asks whether the error is produced exactly when a condition satisfying pred holds
+    (`if P { err }` or `if !P / negated comparison { .. } else { err }`)"""
+
+    def __init__(self, node, in_then):
+        self.node = node
+        self.in_then = in_then
+        self.cond = node["cond"]
+
+    def compare(self):
+        """(op, l, r) of the guarding comparison normalised to the polarity under which the error is produced"""
+        c = self.cond
+        neg = not self.in_then
+        while c.get("k") == "Unary" and c.get("op") == "Not":
+            c = c["e"]
+            neg = not neg
+        if c.get("k") != "Binary":
+            return None
+        op = c["op"]
+        flip = {"Eq": "Ne", "Ne": "Eq", "Lt": "Ge", "Ge": "Lt", "Gt": "Le", "Le": "Gt"}
+        if neg:
+            if op not in flip:
+                return None
+            op = flip[op]
+        return (op, c["l"], c["r"])
+
+
+def guard_atoms(g):
+    """('any' | 'all', [(op, l, r)]) : the error is produced iff any / all of the comparisons hold; None if the guard is not
+    a boolean combination of comparisons of one kind"""
+    FLIP = {"Eq": "Ne", "Ne": "Eq", "Lt": "Ge", "Ge": "Lt", "Gt": "Le", "Le": "Gt"}
+
+    def norm(c, neg):
+        while c.get("k") == "Unary" and c.get("op") == "Not":
+            c = c["e"]
+            neg = not neg
+        if c.get("k") == "Binary" and c["op"] in ("And", "Or"):
+            l, r = norm(c["l"], neg), norm(c["r"], neg)
+            if l is None or r is None:
+                return None
+            mode = c["op"]
+            if neg:
+                mode = "Or" if mode == "And" else "And"
+            want = "any" if mode == "Or" else "all"
+            if (len(l[1]) > 1 and l[0] != want) or (len(r[1]) > 1 and r[0] != want):
+                return None
+            return (want, l[1] + r[1])
+        if c.get("k") == "Binary" and c["op"] in FLIP:
+            return ("any", [(FLIP[c["op"]] if neg else c["op"], c["l"], c["r"])])
+        return None
+    return norm(g.cond, not g.in_then)
+
+
 def guarded_returns(body):
-    """[(variant, innermost guarding If, Return node)] for every `return Err(..LinearAlgebraError..)`"""
+    """[(variant, Guard | None, node)] for every place a LinearAlgebraError value is produced: `return Err(..)` statements
+    and `Err(..)` in tail position of a branch, in source order"""
     out = []
-    for r, parents in tast.find_with_parents(body["body"], lambda z: z.get("k") == "Return"):
-        v = err_variant(r)
-        if v is None:
+    seen = set()
+    for n_, parents in tast.find_with_parents(body["body"], lambda z: z.get("k") in ("Struct", "Path", "Call") and (z.get("def") or "").startswith(ERR)):
+        v = n_["def"][len(ERR):].split("::")[0]
+        # outermost enclosing expression of this error value: up to the Return or to the branch block it is the tail of
+        top = n_
+        for a in reversed(parents):
+            if a.get("k") in ("Call", "Struct", "Return", "Paren"):
+                top = a
+                if a.get("k") == "Return":
+                    break
+            else:
+                break
+        if id(top) in seen:
             continue
-        ifs = [p for p in parents if p.get("k") == "If" and tast.contains(p["then"], lambda z: z is r)]
-        out.append((v, ifs[-1] if ifs else None, r))
+        seen.add(id(top))
+        g = None
+        for a in reversed(parents):
+            if a.get("k") == "If":
+                in_then = tast.contains(a["then"], lambda z: z is n_)
+                in_else = a.get("else") is not None and tast.contains(a["else"], lambda z: z is n_)
+                if in_then or in_else:
+                    g = Guard(a, in_then)
+                    break
+        out.append((v, g, top))
     return out
 
 
@@ -47,19 +120,28 @@ def r_lu_errs(rep, f):
         short = fn.split("::")[-1]
         # NonSquareMatrix <= a comparison of nrows with ncols
         key = "R-LU-ERRS:%s:NonSquareMatrix" % short
-        ok = any(g is not None and tast.contains(g["cond"], lambda z: z.get("k") == "MethodCall" and z.get("name") == "ncols")
-                 and tast.contains(g["cond"], lambda z: z.get("k") == "Binary" and z["op"] == "Ne") for g, r in byv.get("NonSquareMatrix", []))
+        def any_ne(g, meth):
+            ga = guard_atoms(g) if g is not None else None
+            return ga is not None and (ga[0] == "any" or len(ga[1]) == 1) and all(a_[0] == "Ne" for a_ in ga[1]) \
+                and any(tast.contains(x, lambda z: z.get("k") == "MethodCall" and z.get("name") == meth) for a_ in ga[1] for x in a_[1:])
+        ok = any(any_ne(g, "ncols") for g, r in byv.get("NonSquareMatrix", []))
         (rep.ok(key.split(":")[0], key, "returned under n != ncols") if ok else
          rep.violation("R-LU-ERRS", key, "a non-square matrix is not rejected with NonSquareMatrix under a dimension test", b.get("sp")))
         key = "R-LU-ERRS:%s:PivotSizeMismatch" % short
-        ok = any(g is not None and tast.contains(g["cond"], lambda z: z.get("k") == "MethodCall" and z.get("name") == "len")
-                 and tast.contains(g["cond"], lambda z: z.get("k") == "Binary" and z["op"] == "Ne") for g, r in byv.get("PivotSizeMismatch", []))
+        ok = any(any_ne(g, "len") for g, r in byv.get("PivotSizeMismatch", []))
         (rep.ok("R-LU-ERRS", key, "returned under ip.len() != n") if ok else
          rep.violation("R-LU-ERRS", key, "a pivot vector of the wrong length is not rejected with PivotSizeMismatch", b.get("sp")))
         key = "R-LU-ERRS:%s:SingularMatrix" % short
         sing = byv.get("SingularMatrix", [])
-        okc = [g for g, r in sing if g is not None and tast.contains(g["cond"], lambda z: z.get("k") == "Binary" and z["op"] == "Eq"
-                                                                      and ((z["r"].get("k") == "Lit" and float(z["r"]["v"]) == 0.0) or (z["l"].get("k") == "Lit" and float(z["l"]["v"]) == 0.0)))]
+        def zero_test(g):
+            ga = guard_atoms(g) if g is not None else None
+            if ga is None:
+                return False
+            is0 = lambda y: y.get("k") == "Lit" and y.get("lk") in ("Float", "Int") and float(y["v"]) == 0.0
+            if len(ga[1]) > 1 and ga[0] != "all":
+                return False
+            return all(op == "Eq" and (is0(l) or is0(r_)) for op, l, r_ in ga[1])
+        okc = [g for g, r in sing if zero_test(g)]
         if len(okc) >= 3 and len(okc) == len(sing):
             rep.ok("R-LU-ERRS", key, "%d zero-pivot tests return SingularMatrix" % len(okc))
         else:
@@ -117,8 +199,8 @@ def nonzero_by_facts(den, fs):
 def r_lu_siblings(rep, f):
     if LU not in f.bodies or LUC not in f.bodies:
         return
-    a = [(v, tast.render(g["cond"]).count("==") + tast.render(g["cond"]).count("!=") > 0 if g else False) for v, g, r in guarded_returns(f.body(LU))]
-    b = [(v, tast.render(g["cond"]).count("==") + tast.render(g["cond"]).count("!=") > 0 if g else False) for v, g, r in guarded_returns(f.body(LUC))]
+    a = [(v, g is not None) for v, g, r in guarded_returns(f.body(LU))]
+    b = [(v, g is not None) for v, g, r in guarded_returns(f.body(LUC))]
     key = "R-LU-SIBLINGS"
     if [x[0] for x in a] == [x[0] for x in b]:
         rep.ok(key, key + ":errors", "real and complex factorisation issue the same sequence of checks: %s" % [x[0] for x in a])
@@ -776,3 +858,113 @@ def r_jac_policy(rep, f):
             rep.inconc("R-JAC-POLICY", key, "expected the keep-factors site and at least two Jacobian decisions about the same pair of quantities (found %d keep-factors site(s), %d comparable pair(s))" % (n1, len(multi)))
         elif not any(v["key"].startswith(key) for v in rep.violations):
             rep.ok("R-JAC-POLICY", key, "%d Jacobian-flag decision(s) over %d compared pair(s) are mutually consistent; keeping the factors keeps the Jacobian (%d site)" % (n2, len(pairs), n1))
+
+
+# ------------------------------------------------------------------------------------------ R-LU-INTERLEAVE (C16)
+def r_lu_interleave(rep, f):
+    """Writer/reader agreement on the row interchanges. The factorisation swaps rows m and k only in columns >= k (every
+    write `a[(m, j)] = ..` / `a[(k, j)] = ..` of a swap has j = k or j ranging over k+1..n), so the multipliers of earlier
+    columns stay in their unpermuted rows ("deferred" interchanges, as in Hairer's DEC/SOL). The forward substitution must
+    therefore apply interchange k immediately before elimination step k: every read of the pivot vector in a solve sits in
+    a loop over k whose body, after the interchange, eliminates column k. Interchanges applied in a loop of their own solve
+    a different system."""
+    pairs = [(LU, SOL), (LUC, SOLC)]
+    for dec, sol in pairs:
+        key = "R-LU-INTERLEAVE:%s" % sol.split("::")[-1]
+        bd, bs = f.bodies.get(dec), f.bodies.get(sol)
+        if bd is None or bs is None:
+            rep.inconc("R-LU-INTERLEAVE", key, "%s / %s not found" % (dec, sol))
+            continue
+        rep.fn(sol)
+        # (a) the factorisation's interchanges: writes to matrix rows indexed by the pivot row m inside `if m != k`
+        deferred = None
+        outer = [l for l in tast.find(bd["body"], lambda z: z.get("k") == "For")
+                 if tast.contains(l["body"], lambda q: q.get("k") in ("Assign",) and q["l"].get("k") == "Index" and "usize" in (q["l"]["e"].get("ty") or ""))]
+        # the outer elimination loop is the one that records the pivot index (ip[k] = m)
+        for lp in outer:
+            kid = lp["pat"].get("id")
+            swaps = []
+            for i_ in tast.find(lp["body"], lambda z: z.get("k") == "If" and z["cond"].get("k") == "Binary" and z["cond"]["op"] == "Ne"):
+                for w in tast.find(i_["then"], lambda q: q.get("k") == "Assign" and q["l"].get("k") == "Index" and "Matrix" in (q["l"].get("base_ty") or "")):
+                    swaps.append((i_, w))
+            if not swaps:
+                continue
+            cols = []
+            for i_, w in swaps:
+                tup = w["l"]["i"]
+                if tup.get("k") != "Tuple" or len(tup["elems"]) != 2:
+                    continue
+                c = tup["elems"][1]
+                if c.get("k") == "Path" and c.get("id") == kid:
+                    cols.append("k")
+                elif c.get("k") == "Path":
+                    # a column loop variable: its range must start after k
+                    cl = [l for l in tast.find(lp["body"], lambda z: z.get("k") == "For" and z["pat"].get("id") == c.get("id"))]
+                    if cl and cl[0]["iter"].get("k") == "Struct":
+                        st = next((x["e"] for x in cl[0]["iter"]["fields"] if x["name"] == "start"), None)
+                        zero = st is not None and st.get("k") == "Lit" and str(st.get("v")) in ("0",)
+                        cols.append("from0" if zero else "after-k")
+                    else:
+                        cols.append("?")
+                else:
+                    cols.append("?")
+            if cols:
+                deferred = all(c in ("k", "after-k") for c in cols)
+                if "?" in cols:
+                    deferred = None
+            break
+        if deferred is None:
+            rep.inconc("R-LU-INTERLEAVE", key, "could not classify the row interchanges of %s" % dec.split("::")[-1])
+            continue
+        if not deferred:
+            rep.inconc("R-LU-INTERLEAVE", key, "%s interchanges complete rows: the solve may permute the right-hand side up front; this rule models the deferred convention only" % dec.split("::")[-1])
+            continue
+        # (b) the solve
+        ips = [p_["id"] for p_ in bs.get("params", []) if p_.get("k") == "PBind" and "usize" in (p_.get("ty") or "")]
+        reads = tast.find_with_parents(bs["body"], lambda z: z.get("k") == "Index" and z["e"].get("k") == "Path" and z["e"].get("id") in ips)
+        if not reads:
+            rep.violation("R-LU-INTERLEAVE", key, "the solve never reads the pivot vector: the row interchanges of the factorisation are not applied to the right-hand side", bs.get("sp"))
+            continue
+        bad = None
+        n_ok = 0
+        for rd, parents in reads:
+            loops = [p_ for p_ in parents if p_.get("k") == "For"]
+            if not loops:
+                bad = (rd, "the pivot vector is read outside the elimination loop")
+                break
+            lp = loops[-1]
+            kid = lp["pat"].get("id")
+            kids = {kid}
+            grew = True
+            while grew:
+                grew = False
+                for l_ in tast.find(lp["body"], lambda z: z.get("k") == "Let" and z["pat"].get("k") == "PBind" and z.get("init") is not None
+                                    and z["init"].get("k") == "Path" and z["init"].get("id") in kids):
+                    if l_["pat"]["id"] not in kids:
+                        kids.add(l_["pat"]["id"])
+                        grew = True
+            def eliminates(q):
+                # an update of a right-hand-side element from a matrix element of column k
+                if q.get("k") not in ("AssignOp", "Assign") or q["l"].get("k") != "Index" or "Matrix" in (q["l"].get("base_ty") or ""):
+                    return False
+                return True
+            inner = [l for l in tast.find(lp["body"], lambda z: z.get("k") == "For")
+                     if tast.contains(l["body"], lambda q: q.get("k") == "Index" and "Matrix" in (q.get("base_ty") or "") and q["i"].get("k") == "Tuple"
+                                      and len(q["i"]["elems"]) == 2 and q["i"]["elems"][1].get("k") == "Path" and q["i"]["elems"][1].get("id") in kids)
+                     and tast.contains(l["body"], eliminates)]
+            if not inner:
+                bad = (rd, "interchange `%s` is applied in a loop over `%s` that does not eliminate column %s" % (tast.render(rd), lp["pat"].get("name"), lp["pat"].get("name")))
+                break
+            # order: the interchange precedes the elimination loop in the body
+            stl = list(lp["body"].get("stmts", [])) + ([lp["body"]["tail"]] if lp["body"].get("tail") is not None else [])
+            pos_r = next((i for i, st in enumerate(stl) if tast.contains(st, lambda z: z is rd)), None)
+            pos_e = next((i for i, st in enumerate(stl) if tast.contains(st, lambda z: z is inner[0])), None)
+            if pos_r is None or pos_e is None or pos_r > pos_e:
+                bad = (rd, "elimination step runs before its interchange")
+                break
+            n_ok += 1
+        if bad:
+            rep.violation("R-LU-INTERLEAVE", key, "%s: the factorisation leaves the multipliers of earlier columns in their unpermuted rows, so interchange k has to be applied immediately before elimination step k"
+                          % bad[1], bad[0].get("sp"))
+        else:
+            rep.ok("R-LU-INTERLEAVE", key, "deferred interchanges in %s; %d pivot read(s) each inside the elimination loop, before the column update" % (dec.split("::")[-1], n_ok))
